@@ -2,6 +2,7 @@ package main
 
 import (
 	"fmt"
+	"sort"
 	"strings"
 
 	"golang.org/x/tools/go/ssa"
@@ -64,7 +65,7 @@ func runC06(c *Ctx) {
 	}
 	c06Regime(c, sc, T)
 	c06TimestampPath(c, sc, T)
-	c.MinCount("", 20, "clock obligations")
+	c.MinCount("", 22, "clock obligations")
 }
 
 func c06Expiry(c *Ctx, EXP *ssa.Function) {
@@ -342,6 +343,7 @@ func c06Regime(c *Ctx, sc *c06Scanner, T *ssa.Function) {
 		}
 		c.Evals++
 		c.Check(ok && n > 0 && storesOK, "regime/tsa-enabled-helper", "the tsa-enabled helper answers true only for an element of the statement's trust stores whose type prefix equals \"tsa\"", w.FnPos(G), "true can be returned without a listed tsa store")
+		c06TsaNeverMissed(c, sc, G)
 	}
 	oa, _ := w.constString("verifier/trustpolicy", "OptionAfterCertExpiry")
 	oal, _ := w.constString("verifier/trustpolicy", "OptionAlways")
@@ -400,6 +402,18 @@ func c06Regime(c *Ctx, sc *c06Scanner, T *ssa.Function) {
 			}
 		}
 	}
+	// "exactly when" also means that the specified rows exist. Every row above is a path the code has; the inputs "tsa store
+	// listed" and "option" are enumerated, but "a certificate is expired" is learnt on the way (an edge of the decision scan,
+	// or the answer of a proven scan call), so the row tsa x afterCertExpiry x expired exists only if some path can learn it
+	// before the decision. If none can (the test of the decision scan was weakened by a conjunct, the flag is never set),
+	// afterCertExpiry never reaches the timestamp regime: an expired chain is then judged at time.Now() although the clock
+	// specified for it is the countersignature's (the deviation is on the strict side, like timestamping without a tsa store,
+	// which the table flags as well).
+	if len(table) > 0 {
+		if key := fmt.Sprintf("tsa=%v option=%q expired-seen=%v", true, oa, true); table[key] == "" {
+			bad = append(bad, key+": no path learns that a certificate is expired and goes on to the timestamp regime, specified timestamp")
+		}
+	}
 	c.Evals += xp.Steps
 	c.Extra["regime_paths"] = nPaths
 	c.Extra["regime_table"] = table
@@ -414,6 +428,16 @@ func c06Regime(c *Ctx, sc *c06Scanner, T *ssa.Function) {
 		c.Bad("regime/decision-table", rule, w.FnPos(T), strings.Join(bad, "\n"))
 	} else {
 		c.OK("regime/decision-table", rule, w.InstrPos(blockTerm(tsBlocks[0])))
+	}
+	// the decision scan looks at every certificate (c06Explorer.blindIterations)
+	{
+		var sites []string
+		for s := range xp.Blind {
+			sites = append(sites, s)
+		}
+		sort.Strings(sites)
+		c.Extra["regime_decision_loops"] = xp.Loops
+		c.Check(len(sites) == 0, "regime/expired-scan-complete", "the decision \"no certificate of the chain is expired\" (afterCertExpiry) is taken only after every certificate's NotAfter was compared with time.Now(): no iteration of a deciding loop bypasses the comparison", w.FnPos(T), "an iteration of the loop can go round without the comparison: an expired certificate is not noticed and the chain is judged at time.Now() instead of the countersignature's time", sites...)
 	}
 	// valid-now regime: a whole-chain scan (inline loop, helper, or library search: c06Scan) of SignerInfo.CertificateChain
 	// whose per-element facts are both bounds against time.Now(), behind which every success exit that avoids the timestamp
